@@ -17,8 +17,9 @@ def build_loop_slice():
     if len(loops) != 1: raise extract.Undecided("lost anchor: the neighbour loop of ConvexCell::build")
     lp = loops[0]
     pat = lp["pat"]
-    if pat["k"] != "ptuple" or [e.get("name") for e in pat["elems"]] != ["idx", "shift"]:
-        raise extract.Undecided("lost anchor: loop pattern (idx, shift)")
+    if pat["k"] != "ptuple" or len(pat["elems"]) != 2 or any(e.get("k") != "pident" for e in pat["elems"]):
+        raise extract.Undecided("lost anchor: loop pattern (<neighbour index>, <shift>)")
+    build_loop_slice.names = [e["name"] for e in pat["elems"]]        # whatever the two loop variables are called
     return u, lp["body"]["stmts"], extract.sha(extract.text_of(u.tree, lp["body"]))
 
 
@@ -40,7 +41,8 @@ def bisector_obligations(prefix):
     ctx.resolver = u.resolver(XF)
     ctx.contracts["ConvexCell::clip_by_plane"] = clip_contract
     consts = u.auto_consts(XF)
-    v, env, ctx, it = symex.run_stmts(stmts, {"generators": gens, "idx": idx, "shift": shift, "cell": cell,
+    n_idx, n_shift = build_loop_slice.names
+    v, env, ctx, it = symex.run_stmts(stmts, {"generators": gens, n_idx: idx, n_shift: shift, "cell": cell,
                                               "simulation_boundary": Struct("SimulationBoundary", {})}, ctx, consts, "ConvexCell")
     if "args" not in captured: raise extract.Undecided("lost anchor: cell.clip_by_plane(..) call in the neighbour loop")
     hs = captured["args"][1]
@@ -65,7 +67,14 @@ def bisector_obligations(prefix):
           Implies(shift.some, veq(hs.f["shift"].val, sh))))
     # termination slice (C16): the loop returns exactly when safety_radius < dist, otherwise it clips with that plane
     dist2 = norm2(sub(loc, ngb))
-    ret = Or(*[c for c, _ in env.returns]) if env.returns else FALSE
+    # the candidate ENDS the loop: `return cell` or `break` (the loop is followed by the tail expression `cell` only - checked syntactically below)
+    ends = [c for c, _ in env.returns] + [c for c, _ in env.breaks]
+    if env.breaks:
+        st_ = u.fn["body"]["stmts"]
+        k_ = [i for i, s_ in enumerate(st_) if (s_.get("e") or {}).get("k") == "for"]
+        if not (k_ and k_[0] == len(st_) - 2 and extract.text_of(u.tree, st_[-1]).strip() == "cell"):
+            raise extract.Undecided("the neighbour loop leaves with `break` but is not directly followed by the tail expression `cell`")
+    ret = Or(*ends) if ends else FALSE
     obs.append(Obligation(prefix + ".bisector.returns_iff_safety_radius_lt_distance", P + [Ge(sr, R0)],
                           And(Eq(ret, Lt(sr * sr, dist2)), Eq(called, Not(Lt(sr * sr, dist2)))), u.label, replay=replay_small_periodic))
     # no candidate is dropped: whatever (idx, shift) the iterator hands over - another generator, or a periodic image of the cell's own
